@@ -303,6 +303,9 @@ func (g *gen) roundtrip(p *Plan, conformance bool) {
 	if g.r.Chance(1, 10) {
 		src.Faults = []RFault{{Call: g.r.Range(1, 12), Kind: "zero"}}
 	}
+	if g.r.Chance(1, 10) {
+		src.Bufio = g.r.PickInt(16, 100, 4096, 65536)
+	}
 	r.Srcs = []Source{src}
 	r.Ops = g.readOps(bs, n)
 	r.Ops = append(r.Ops, ROp{Op: "read", N: 16})
